@@ -5,7 +5,7 @@ One recorder wraps quick_tidal_dissipation / quick_dual_body_tidal_dissipation; 
       I3 synchronous, N=2, l=2 => (21/2)(-Im k2) G M^2 R^5 n e^2 / a^6;  I4 passive rheology => heating >= 0 (where the
       truncated tables are still non-negative, i.e. inside the truncation's validity range);
       I5 grouping: an independent straight sum over every (l,m,p,q) present in the real tables with its own -Im k_l(|w|)
-      from the published compliance equals the grouped result;  I6 scalar == array element-wise;  I7 the same state given as periods
+      from the published compliance equals the grouped result;  I6 scalar == array element-wise, also when only some state inputs are arrays;  I7 the same state given as periods
       instead of frequencies gives the same result, and tidal_scale / da_dt_scale / de_dt_scale / dspin_dt_scale act as pure factors
  C11: energy balance, angular-momentum balance at zero obliquity, de/dt finite and exactly 0 at e=0, arrays == scalars
 The module is shared: checks/c11_*.py re-exports it with PROP='C11' and only the C11 monitors deciding.
@@ -151,17 +151,22 @@ def eval_case(c):
     dt = (1.0 / c['q']) / n
 
     def single(rheo, e_, obl_, spin_, arr, Mh_=Mh, R_=R, mass_=mass, g_=g, rho_=rho, C_=C, derivs=True, extra=None):
-        f = (lambda x: None if x is None else np.array([x, x * 1.0, x])) if arr else (lambda x: x)
-        kw = dict(viscosity=c['visc'], shear_modulus=c['mu'], rheology=rheo, eccentricity=f(e_), obliquity=f(obl_), orbital_frequency=f(n),
-                  spin_frequency=f(spin_), max_tidal_order_l=c['lmax'], eccentricity_truncation_lvl=c['N'], fixed_k2=c['k2'], fixed_q=c['q'],
+        # arr: True (every state input an array), False (scalars) or a set of names: only those inputs are arrays (mixed broadcasting)
+        def f(x, name=None):
+            if x is None:
+                return None
+            on = (name in arr) if isinstance(arr, (set, frozenset)) else bool(arr)
+            return np.array([x, x * 1.0, x]) if on else x
+        kw = dict(viscosity=c['visc'], shear_modulus=c['mu'], rheology=rheo, eccentricity=f(e_, 'e'), obliquity=f(obl_, 'o'), orbital_frequency=f(n, 'n'),
+                  spin_frequency=f(spin_, 's'), max_tidal_order_l=c['lmax'], eccentricity_truncation_lvl=c['N'], fixed_k2=c['k2'], fixed_q=c['q'],
                   calculate_orbit_spin_derivatives=derivs)
         if extra:
             if extra.get('periods'):
                 # the same state given as periods [days] instead of frequencies
-                kw['orbital_period'] = f(2 * math.pi / n / 86400.0)
+                kw['orbital_period'] = f(2 * math.pi / n / 86400.0, 'n')
                 kw['orbital_frequency'] = None
                 if spin_ is not None:
-                    kw['spin_period'] = f(2 * math.pi / spin_ / 86400.0)
+                    kw['spin_period'] = f(2 * math.pi / spin_ / 86400.0, 's')
                     kw['spin_frequency'] = None
             kw.update({k_: v_ for k_, v_ in extra.items() if k_ != 'periods'})
         cnt['calls'] += 1
@@ -229,6 +234,20 @@ def eval_case(c):
             for nm in ('tidal_heating', 'dUdM', 'dUdw', 'dUdO'):
                 if abs(first(r2[nm]) - first(r[nm])) > 1e-13 * max(abs(first(r[nm])), scale if nm == 'tidal_heating' else scale_pot):
                     V('scalar-vs-array', f'{nm}: scalar call {first(r2[nm]) if c["array"] else first(r[nm])!r} vs array call {first(r[nm]) if c["array"] else first(r2[nm])!r}')
+            # I6b mixed scalar / array inputs: any single state input (or pair) given as an array broadcasts against scalar others
+            rs_ = np.random.default_rng([c.get('seed', 0), 10, 78, int(c['n'] * 1e12) % 100003])
+            names_ = [x for x in ('n', 's', 'e', 'o') if not ((x == 's' and spin is None) or (x == 'o' and obl is None))]
+            mask = frozenset(names_[i_] for i_ in rs_.permutation(len(names_))[:int(rs_.integers(1, max(2, len(names_))))])
+            try:
+                r5 = single(rheo, e, obl, spin, mask)
+            except ZeroDivisionError:
+                r5 = None
+            if r5 is not None:
+                cnt['identities_checked'] += 1
+                for nm in ('tidal_heating', 'dUdM', 'dUdw', 'dUdO'):
+                    v5 = np.atleast_1d(np.asarray(r5[nm], dtype=float))
+                    if np.max(np.abs(v5 - first(r[nm]))) > 1e-13 * max(abs(first(r[nm])), scale if nm == 'tidal_heating' else scale_pot):
+                        V('mixed-scalar-array-inputs', f'{nm}: {v5.tolist()[:3]} when only {sorted(mask)} are arrays (identical elements) but {first(r[nm])!r} for the same state given {"as arrays" if c["array"] else "as scalars"}')
             if c['array']:
                 for nm in ('tidal_heating', 'dUdM'):
                     arr = np.asarray(r[nm])
